@@ -360,7 +360,7 @@ func Drive(cfg *Config, fn RunFn) int {
 			code = 1
 			break
 		}
-		min := Minimise(used, class, 300, 25*time.Second, func(c []uint32) *Violation {
+		min := Minimise(used, class, 150, 12*time.Second, func(c []uint32) *Violation {
 			o := fn(ReplayTape(c), false)
 			if o.V != nil && known.Match(o.V) != nil {
 				return nil
